@@ -331,6 +331,15 @@ def run(ctx):
         for ev in r:
             if ev["ev"] == "harness_err":
                 raise Inconclusive("harness error: %s" % ev.get("what"))
+    # module goroutines the library left behind may still log after fdo.TO2 returned: the property ends there
+    late = 0
+    for r in runs:
+        for i, e in enumerate(r):
+            if e["ev"] == "to2_result":
+                late += len(r) - i - 1
+                del r[i + 1:]
+                break
+    ctx.notes["events_after_to2_result_ignored"] = late
     ctx.log("executed %d runs in the real TO2 pair" % len(runs))
 
     if selftest == "corrupt":
@@ -366,6 +375,9 @@ def run(ctx):
             detail = category(res.get("msg", ""))
             if detail == "timeout" and not any(e["ev"] == "owner_devmod" for e in r):
                 detail = "timeout-devmod-never-completes"
+            if not any(e["ev"] == "owner_devmod" for e in r):
+                # failures while devmod is sent depend on the owner-announced MTU and on the length of the module list
+                detail += "|own_mtu" + mtu_class(case["own_mtu"]) + ("|many-names" if case["fillers"] >= 24 else "|few-names")
         elif reason[:4] in ("d2o_", "o2d_") and reason[4:] != "offset":
             # one family per direction: bytes a module wrote did not reach the peer module complete, in order, once
             yielded = any(e["ev"] == "dev_yield" and e["seq"] < ev["seq"] for e in r)
@@ -374,7 +386,7 @@ def run(ctx):
         elif reason == "owner_got_misrouted":
             detail = "to-next-module"
         elif reason == "devmod_module_list":
-            detail = "empty-list-accepted" if ev.get("modules") == [] else "list-differs"
+            detail = ("empty-list-accepted" if ev.get("modules") == [] else "list-differs") + "|own_mtu" + mtu_class(case["own_mtu"])
         else:
             detail = category(res.get("msg", "")) if res.get("err") else "run-completed"
         key = "%s|%s" % (reason, detail)
